@@ -30,6 +30,12 @@ def plan(tier, seed):
         chains = domains.typed_chains(dom, L)
         phases.append({'name': f'graph_{dom}', 'target': TARGET, 'x64': False, 'ctx': {'dom': dom},
                        'cases': [{'dom': dom, 'chain': c} for c in chains], 'chunk': max(20, len(chains) // 160)})
+    # the same expressions rebuilt with other parameter values after the earlier operators were dropped: nothing may be
+    # remembered about objects that no longer exist (each shard: 3 generations of freshly built atoms)
+    for dom in ('POL', 'IDX', 'INV', 'BLK', 'AXT'):
+        chains = [c for c in domains.typed_chains(dom, 2 if tier == 'quick' else 3) if len(c) >= 2]
+        phases.append({'name': f'rebuild_{dom}', 'target': TARGET, 'x64': False, 'ctx': {'dom': dom},
+                       'cases': [{'dom': dom, 'chain': c, 'rebuild': 3} for c in chains], 'chunk': max(12, len(chains) // 32)})
     from checks import c01_trees
 
     phases += c01_trees.plan(tier, seed)
@@ -149,6 +155,66 @@ def driver_check(env, ops, desc, violations, counters):
     return red
 
 
+def run_rebuild(dom, cases):
+    import gc
+
+    from furax._base.core import CompositionOperator
+    from mc import probe as P
+    from mc import xstate
+
+    violations = []
+    counters = collections.Counter()
+    failed = set()
+    for case in cases:
+      key = ' '.join(case['chain'])
+      # the loop body is the same sequence of allocations in every generation (build, reduce, compare, drop): CPython then
+      # hands the addresses of the dropped operators to their successors
+      for gen in range(case.get('rebuild', 3)):
+        if key in failed:
+            break
+        atoms = domains.build(dom, variant=gen, fresh=True)
+        env = xstate.Env(atoms, domains.EXACT[dom])
+        if True:
+            ops = [atoms[n] for n in case['chain']]
+            try:
+                ref = env.chain_dense(ops, P.ssize(ops[-1].in_structure()))
+                with xstate.Timeout(60), P.quiet():
+                    red = CompositionOperator(list(ops)).reduce()
+                problem = None
+                if not P.same_struct(red.in_structure(), ops[-1].in_structure()) or not P.same_struct(red.out_structure(), ops[0].out_structure()):
+                    problem = f'structures changed: {red.in_structure()} -> {red.out_structure()}'
+                else:
+                    M = env.dense(red)
+                    if not P.close(M, ref, env.tol() or 1e-6):
+                        problem = f'dense matrix changed by reduce() (max |diff| {P.maxdiff(M, ref):.4g}); before {P.mat_summary(ref, 36)} after {P.mat_summary(M, 36)}'
+                if problem:
+                    failed.add(key)
+                    w = {'singular_inverse_collapse': False, 'other_unsound': True}
+                    if gen == 0 or any(n in ('Dz', 'Dzi') for n in case['chain']):
+                        # generation 0 repeats what the graph phases decide (and classify); only later generations are new here
+                        counters['left_to_graph_phase'] += 1
+                    else:
+                        violations.append({'kind': 'reduce-depends-on-dropped-operators', 'case': case, 'witness': w,
+                                           'detail': f'generation {gen} (same expression, parameters x{2 ** gen}, built after the earlier generation was dropped): {problem}'})
+                counters['rebuild_reductions'] += 1
+            except P.LibError as e:
+                failed.add(key)
+                if gen:
+                    violations.append({'kind': 'reduce-depends-on-dropped-operators', 'case': case, 'detail': f'generation {gen}: {e}\n{e.tb}'})
+            except BaseException as e:  # noqa: BLE001
+                if type(e).__name__ in ('KeyboardInterrupt', 'SystemExit', 'CaseTimeout'):
+                    raise
+                failed.add(key)
+                if gen:
+                    err = P.LibError('reduce', e)
+                    violations.append({'kind': 'reduce-depends-on-dropped-operators', 'case': case, 'detail': f'generation {gen}: {err}\n{err.tb}'})
+            ops = red = ref = M = None
+        atoms = env = None
+        gc.collect()
+    return {'n': len(cases), 'violations': violations, 'counters': counters, 'states': set(), 'edges': set(), 'terminals': set(),
+            'transitions_fired': 0, 'rule_hits': collections.Counter(), 'rule_ctx': {}, 'nontrivial': set(), 'samples': [], 'maxdepth': [0]}
+
+
 def _is_identity(op):
     from furax._base.core import IdentityOperator
 
@@ -161,6 +227,8 @@ def run(phase, cases, ctx):
 
         return c01_trees.run(phase, cases, ctx)
     dom = ctx['dom']
+    if phase.startswith('rebuild'):
+        return run_rebuild(dom, cases)
     ex = get_explorer(dom)
     env = ex.env
     violations = []
@@ -250,6 +318,7 @@ def finalize(results, tier, seed):
         per_domain[name] = {'roots': res['n'], 'states': len(res['states']), 'edges': len(res['edges']),
                             'terminals': len(res['terminals']), 'transitions_fired': res['transitions_fired'],
                             'max_depth': max(res['maxdepth'])}
+    rebuilt = sum(res['counters'].get('rebuild_reductions', 0) for name, res in results.items() if name.startswith('rebuild_'))
     from checks import c01_trees
 
     tree_cov = c01_trees.coverage(results)
@@ -259,7 +328,7 @@ def finalize(results, tier, seed):
         'traces_unvalidated': counters.get('traces_unvalidated', 0),
         'driver_runs': counters.get('driver_runs', 0),
         'driver_runs_with_firings': counters.get('driver_runs_with_firings', 0),
-        'root_chains': roots, 'per_domain': per_domain,
+        'root_chains': roots, 'per_domain': per_domain, 'reductions_after_rebuild': rebuilt,
         'unvalidated_examples': sorted(k[12:] for k in counters if k.startswith('unvalidated:'))[:12],
         'rule_firings': dict(rule_hits), 'rule_distinct_neighbour_contexts': dict(rule_ctx),
         'evaluations': roots + tree_cov.get('trees', 0), 'distinct_nontrivial': nontrivial + tree_cov.get('trees_nontrivial', 0),
